@@ -779,13 +779,21 @@ func runC11(r *core.Run) (bool, string) {
 		"(c) image length changed behind an open disk (child processes, no strace; image_length_* keys): after writing every block the harness truncates the image to 0 / to 1 byte / inside a block / one byte short / on a block boundary / k blocks short, opens a second handle with fewer blocks (kept open, or closed at once) or with more blocks, grows the image by whole or partial blocks, or shrinks and re-extends it; " +
 		"then Read, ReadTo into a dirty buffer, Write at the first, middle, last-in-image, cut / first-beyond-image, last-of-disk and just-beyond-disk block and Barrier, then a sweep of ReadTo+Read over every block; plus seeded random histories over the same alphabet. " +
 		"Per block the harness tracks what IT did: a block it cut away is `missing`/`cut` while the file is shorter than (b+1)*4096 — a read of it that returns normally with anything but the last value written is a violation (panic or the last value written are fine); once the file was re-extended over it the read is `hole` and not judged; a block never removed whose last Write returned must read as that value; reads beyond Size() are recorded only. " +
+		"(d) how the image path reaches the file (child processes; image_path_* keys, c11paths.go): path form {plain absolute, relative, ./, ../, absolute with /./ /../ //, symlink (absolute target), symlink (relative target), chain of 3 symlinks, relative path that is a symlink, symlink as a directory component, hard link, /proc/self/fd/N, /proc/self/cwd/…} x the prior-image grid of (a) plus seeded atoms (n in 1..12, lengths on and off block boundaries) x {disk.NewFileDisk, async_disk.NewFileDisk}; three stages, each judged with the oracle of (a) where the length is taken by stat of the TARGET's canonical name: open through the form over the prior image; write every block, Close, open through the form again with n' in {n-1,n,n+2}; Close, open the canonical path with n'. Paths that name no regular file (fifo, directory, symlink to either, symlink loop, trailing slash, a file as directory component, dangling symlink into a missing directory): NewFileDisk must report an error / panic, or every Read, ReadTo and Write through the disk it returned must panic. " +
 		"distinct = prior-image atoms (n,len) + distinct reopen histories + landed fault points (script,call,op,syscall,occurrence,fault) + (mutation, probe, block state, n) classes of reads of removed blocks")
 	r.Assume("strace error=/retval= injection replaces the syscall (it is not executed) and the child's main goroutine is locked to the main thread, so `when=` counts are reproducible; validated per run from the injected run's own log")
 	r.Assume("ext4 scratch directory: ftruncate extends with zeros")
+	if os.Getenv("VERIF_C11_LAYERS") == "paths" {
+		// development knob: only the path-form family; such a run is never a verdict
+		r.Inconclusive("dev-knob-VERIF_C11_LAYERS")
+		c11PathFamily(r)
+		return false, "development knob VERIF_C11_LAYERS set"
+	}
 	c11PriorImages(r)
 	c11Histories(r)
 	c11ImageLength(r)
 	landed, planned, kl := c11Faults(r)
+	c11PathFamily(r) // how the image path reaches the file x the reopen-size matrix (c11paths.go)
 	notLanded := r.GetCount("faults_not_landed")
 	r.Set("exhaustive", notLanded == 0 && landed > 0)
 	r.Set("exhaustive_parts", []string{"prior image length x numBlocks grid (30 atoms, coinciding lengths merged)", "every occurrence of pwrite64/pread64/fsync/fdatasync/ftruncate in each script run x {EIO,ENOSPC,EINTR, EAGAIN for pread64/pwrite64} x duration {K, K..K+1, K..K+2, K+} and x short transfer {0,1,100,4095} for pread64/pwrite64"})
@@ -804,6 +812,9 @@ func runC11(r *core.Run) (bool, string) {
 		r.GetCount("image_length_reads_cut_panicked") + r.GetCount("image_length_reads_cut_returned_last_written") + r.GetCount("image_length_reads_cut_returned_other_data")
 	if removedReads < 200 || r.GetCount("image_length_reads_intact_returned_last_written") < 200 {
 		return false, fmt.Sprintf("only %d reads of blocks removed from the image behind the open disk were observed", removedReads)
+	}
+	if n := r.GetCount("image_path_cases_judged"); n < 100 {
+		return false, fmt.Sprintf("only %d path-form x prior-image cases were judged", n)
 	}
 	return true, ""
 }
